@@ -317,7 +317,10 @@ func call(ctx context.Context, conn *jsonrpc2.Connection, method string, params 
 	err := call.Await(ctx, result)
 	switch {
 	case errors.Is(err, jsonrpc2.ErrClientClosing), errors.Is(err, jsonrpc2.ErrServerClosing):
-		return fmt.Errorf("%w: calling %q: %v", ErrConnectionClosed, method, err)
+		// Wrap err too: it may be the peer's own error response (a peer that is
+		// shutting down answers with one of these codes), whose code, message
+		// and data the caller is entitled to.
+		return fmt.Errorf("%w: calling %q: %w", ErrConnectionClosed, method, err)
 	case ctx.Err() != nil:
 		// The notifications/cancelled message is best-effort. Retire the call
 		// immediately (so an unresponsive peer cannot delay the eager
